@@ -21,8 +21,8 @@ LEVEL = "model_checking"
 def run(ctx):
     thorough = ctx.tier == "thorough"
     if thorough:
-        jobs = [("C15_sim", "simulate", 6000, 6), ("C15_window", "simulate", 3000, 3),
-                ("C15_noexist", "simulate", 600, 1), ("C15_shift_bfs", "bfs", None, 1),
+        jobs = [("C15_sim", "simulate", 3000, 6), ("C15_window", "simulate", 1500, 3),
+                ("C15_noexist", "simulate", 300, 1), ("C15_shift_bfs", "bfs", None, 1),
                 ("C15_bfs", "bfs", None, 1)]
     else:
         jobs = [("C15_sim", "simulate", 600, 4), ("C15_window", "simulate", 300, 2),
